@@ -96,6 +96,11 @@ func SchemaFromDDL(ddl string) (*Schema, error) {
 				// ids that differ in case or trailing blanks become the same row
 				sc.TypeProblems = append(sc.TypeProblems, fmt.Sprintf("%s.%s COLLATE %s", s.Table, cd.Name, cd.Collate))
 			}
+			if cd.Name == "sort_id" && !cd.AutoInc {
+				// paging relies on sort ids that are never reused: AUTOINCREMENT / SERIAL, not a plain rowid alias
+				// (which hands out max+1 again after the newest rows were deleted)
+				sc.TypeProblems = append(sc.TypeProblems, fmt.Sprintf("%s.sort_id is not AUTOINCREMENT", s.Table))
+			}
 			t.Cols = append(t.Cols, Column{Name: cd.Name, Sort: srt, SQLType: cd.Type, Default: cd.Default, AutoInc: cd.AutoInc, Unique: cd.Unique || cd.Primary})
 		}
 		if k, ok := keyColumns[t.Name]; ok {
